@@ -70,6 +70,20 @@ func TestVerif_C15Server(t *testing.T) {
 			var m runtime.MemStats
 			runtime.ReadMemStats(&m)
 			fmt.Fprintf(c, "%d %d\n", m.TotalAlloc, runtime.NumGoroutine())
+			// a runtime policy update must still go through after whatever the clients have sent:
+			// a request exit that keeps its admission would block it (and with it every connection)
+			upd := make(chan error, 1)
+			go func() {
+				p := *n.policy.Load()
+				p.MaxFileSize++
+				upd <- n.UpdatePolicyOptions(p)
+			}()
+			select {
+			case <-upd:
+				fmt.Fprintf(c, "U1\n")
+			case <-time.After(20 * time.Second):
+				fmt.Fprintf(c, "U0\n")
+			}
 			c.Close()
 		}
 	}()
@@ -83,6 +97,8 @@ type vfChild struct {
 	cmd        *exec.Cmd
 	stdin      io.WriteCloser
 	port, ctl  int
+	// set when a policy update in the child did not complete within 20 s
+	updateBlocked bool
 	logPath    string
 	exited     chan struct{}
 }
@@ -150,6 +166,11 @@ func (c *vfChild) stats() (alloc uint64, goroutines int, ok bool) {
 	var g int
 	if _, err := fmt.Fscan(conn, &a, &g); err != nil {
 		return 0, 0, false
+	}
+	conn.SetDeadline(time.Now().Add(40 * time.Second))
+	var u string
+	if _, err := fmt.Fscan(conn, &u); err == nil && u == "U0" {
+		c.updateBlocked = true
 	}
 	return a, g, true
 }
@@ -337,6 +358,11 @@ func TestVerif_C15(t *testing.T) {
 		return true
 	}
 	checkAlive := func(class string, last []byte) bool {
+		child.stats()
+		if child.updateBlocked {
+			rec.Violate("C15/server-stops-serving/policy-update-blocked-after-client-streams/stream="+class, "a runtime policy update in the server process did not complete within 20 s after the streams of this class (a request exit kept its admission); every later request is turned away", nil)
+			return false
+		}
 		if !probe(class) {
 			died(last, class)
 			return false
